@@ -23,9 +23,34 @@
 (* programs that both wait before finishing would wait forever and are     *)
 (* left out.  The target may instead refuse.                               *)
 (*                                                                         *)
+(* BACK-PRESSURE (the "hold" shapes).  One endpoint starts with its reader *)
+(* HELD: it reads nothing until its program says `ron`.  The other         *)
+(* endpoint streams: its program contains a big write (`wbig`, more octets *)
+(* than the pipe holds: Big > Cap), which over a bounded pipe only         *)
+(* completes once the held endpoint reads.  Meanwhile the held endpoint    *)
+(* writes small requests and `sync`s: it waits until the peer has received *)
+(* everything it sent so far.  Over a direct connection that happens at    *)
+(* once, because the two directions are independent pipes; TLC checks that *)
+(* no such program pair deadlocks over the ideal (bounded) connection and  *)
+(* that no monitor fires.  `sleep` lets the pipe fill before the request   *)
+(* is written (no effect on the ideal connection; on the real tunnel: until*)
+(* the peer's writer stands still).  Both mirror images                    *)
+(* (client held / target held) are generated.  The negative control        *)
+(* "coupled" is a network that does not deliver y -> x while x -> y is     *)
+(* blocked: the held endpoint's `sync` never completes, the harness gives  *)
+(* up (timeout "delivery") and the monitor Independent fires.              *)
+(* The "sync" shapes demand the same of small exchanges without any        *)
+(* back-pressure: a request is `sync`ed while its sender keeps its own     *)
+(* direction open, after the peer's end-of-stream or concurrently with the *)
+(* peer's own request.                                                     *)
+(*                                                                         *)
 (* UDP (Proto = "udp"): every exchange shape is an initial state; the      *)
 (* history an ideal relay produces satisfies the relation UdpFailing = {}  *)
-(* and broken relays violate the named clause.                             *)
+(* and broken relays violate the named clause.  A profile element a >= 10  *)
+(* is a datagram of size class a - 10 addressed to the SECOND target: one  *)
+(* client (one SOCKS5 association, one local socket) alternating between   *)
+(* two targets; a relay that keeps sending to the first target of a flow   *)
+(* (fault "u_wrongtarget") violates U_Target.                              *)
 (*                                                                         *)
 (* With Gen = TRUE every initial state prints its shape as a JSON line     *)
 (* (SHAPE / USHAPE) and the dimensions of concretisation (entry point      *)
@@ -36,8 +61,8 @@ EXTENDS DirectConn, Json
 
 CONSTANTS MaxW, Sizes, Fault, Proto, Gen, MaxK
 
-VARIABLES prog, pc, st, viol, uh
-vars == <<prog, pc, st, viol, uh>>
+VARIABLES prog, pc, st, viol, uh, blk    \* blk[x]: x is inside a big write that has not completed yet
+vars == <<prog, pc, st, viol, uh, blk>>
 
 (* ------------------------------ dimensions of concretisation ------------------------------ *)
 Entries == <<"tcp", "unix", "socks4", "socks4a", "socks5", "socks5d", "http">>
@@ -57,7 +82,14 @@ SizeClasses == <<
 ReadBufs == <<65536, 4096, 100, 1>>
 \* UDP payload lengths of the abstract classes 0 (empty), 1 (small), 2 (large)
 UdpSizes == [empty |-> <<0>>, small |-> <<1, 2, 3, 4, 5, 100, 1400>>, large |-> <<1472, 8000, 30000, 65000>>]
-Dims == [entries |-> Entries, sizes |-> SizeClasses, rbufs |-> ReadBufs, udp |-> UdpSizes, conc |-> <<1, 2, 3>>]
+\* what `wbig` becomes: more octets than everything on the way can hold (socket buffers on both sides of the tunnel,
+\* the multiplexer's window), so that the writer really blocks while the peer does not read
+\* (measured on the unchanged tree: 90 - 450 MiB are absorbed before a writer blocks - frames are counted, not octets -
+\* so the size is not fixed: the harness writes piece after piece until the held reader is started, at most `max`)
+BigSizes == << [name |-> "16M-pieces", piece |-> 16777216, max |-> 1610612736, chunk |-> 65536, quick |-> TRUE],
+               [name |-> "4M-pieces",  piece |-> 4194304,  max |-> 1610612736, chunk |-> 262144, quick |-> FALSE] >>
+Dims == [entries |-> Entries, sizes |-> SizeClasses, rbufs |-> ReadBufs, udp |-> UdpSizes, conc |-> <<1, 2, 3>>,
+         big |-> BigSizes, sleep_ms |-> 300]
 ASSUME Gen => PrintT(<<"DIM", ToJson(Dims)>>)
 
 (* ------------------------------ TCP: programs ------------------------------ *)
@@ -74,6 +106,26 @@ ProgOf(sh) == Body(sh.ws, sh.wp) \o Finish(sh.fin)
 Refuse == <<Op("refuse", 0)>>
 Refusing == prog["t"] = Refuse
 
+(* ------------------------------ TCP: programs with a held reader (back-pressure) ------------------------------ *)
+Cap == 2          \* octets a direction of the ideal connection holds before a writer blocks
+Big == Cap + 1
+Grace == <<Op("hc", 0), Op("wait", 0), Op("close", 0)>>
+Small == Op("w", 1)
+Req == <<Small, Op("sync", 0)>>          \* a request, and the wait until the peer has it
+StreamProgs == {b \o Grace : b \in {<<Op("wbig", Big)>>, <<Op("wbig", Big), Small>>, <<Small, Op("wbig", Big)>>}}
+HeldBodies == { <<Op("sleep", 0)>> \o Req \o <<Op("ron", 0)>>,
+                <<Op("sleep", 0)>> \o Req \o Req \o <<Op("ron", 0)>>,
+                Req \o <<Op("sleep", 0)>> \o Req \o <<Op("ron", 0)>>,
+                <<Op("sleep", 0)>> \o Req \o <<Op("ron", 0)>> \o Req }
+HeldProgs == {b \o f : b \in HeldBodies, f \in {Grace, <<Op("wait", 0), Op("close", 0)>>}}
+
+\* The same demand without back-pressure: a request must ARRIVE (`sync`) while the connection stays open - not only
+\* by the time its sender half-closes - also after the peer has finished its own direction (`wait` first) and when
+\* both endpoints send at the same instant.  A = the endpoint that syncs, B = its peer.
+SyncBodies == { Req, <<Op("wait", 0)>> \o Req, Req \o Req, <<Op("wait", 0)>> \o Req \o Req }
+SyncProgs == {b \o Grace : b \in SyncBodies}
+PeerProgs == {Grace, <<Small>> \o Grace, Req \o Grace}
+
 (* ------------------------------ UDP: exchange shapes and the ideal relay ------------------------------ *)
 Profiles == {<<0>>, <<1>>, <<2>>, <<0, 1>>, <<1, 2>>}
 ReplyPatterns == {<<1>>, <<0, 2, 1>>}
@@ -82,13 +134,24 @@ ReplyPatterns == {<<1>>, <<0, 2, 1>>}
 IdleProfile == <<1, -1, 1>>
 IdleShapes == {[mode |-> m, assoc |-> "own", clients |-> cl, replies |-> <<1>>] :
                   m \in {"udp", "socks5"}, cl \in {<<IdleProfile>>, <<IdleProfile, <<1>>>>}}
+\* a >= 10 in a profile: a datagram of size class a - 10 for the SECOND target (SOCKS5 only: the header of every
+\* datagram names its target; a UDP remote has one target).  One client alternates between the two targets.
+AltProfiles == {<<1, 11>>, <<11, 1, 11>>, <<2, 10, 1, 11>>}
+AltShapes == {[mode |-> "socks5", assoc |-> a, clients |-> cl, replies |-> rp] :
+                 a \in {"own", "shared"},
+                 cl \in {<<p>> : p \in AltProfiles} \cup {<<p, q>> : p \in AltProfiles, q \in AltProfiles \cup {<<1>>, <<11>>}},
+                 rp \in ReplyPatterns}
+SizeOf(a) == IF a >= 10 THEN a - 10 ELSE a
+TgtOf(a) == IF a >= 10 THEN 2 ELSE 1
 UShapes == UNION {{[mode |-> m[1], assoc |-> m[2], clients |-> cl, replies |-> rp] :
                       m \in {m \in {<<"udp", "own">>, <<"socks5", "own">>, <<"socks5", "shared">>} : m[2] = "shared" => K >= 2},
                       cl \in [1 .. K -> Profiles], rp \in ReplyPatterns} : K \in 1 .. MaxK}
            \cup IdleShapes
+           \cup {u \in AltShapes : u.assoc = "shared" => Len(u.clients) >= 2}
 
 TgtAddr == <<127, 0, 0, 1>>
 TgtPort == 4242
+TgtPorts == <<4242, 4343>>
 DestOf(u, k) == IF u.mode = "udp" THEN <<"remote", 0>> ELSE IF u.assoc = "shared" THEN <<"relay", 1>> ELSE <<"relay", k>>
 Dg(tag, n, a, b) == IF n = 0 THEN <<"empty">> ELSE <<tag, a, b>>
 
@@ -97,19 +160,19 @@ SentUpTo(u, k) ==
   IF k = 0 THEN <<>>
   ELSE LET ds == SelectSeq(u.clients[k], LAMBDA a : a >= 0)   \* the datagrams (an idle period sends nothing)
        IN SentUpTo(u, k - 1) \o [j \in 1 .. Len(ds) |->
-            [k |-> k, j |-> j, n |-> ds[j], dg |-> Dg("q", ds[j], k, j), to |-> DestOf(u, k)]]
+            [k |-> k, j |-> j, n |-> SizeOf(ds[j]), dg |-> Dg("q", SizeOf(ds[j]), k, j), to |-> DestOf(u, k), tgt |-> TgtOf(ds[j])]]
 
 \* the history of an ideal relay: every datagram arrives from a source of its client's own, every reply goes back
 Ideal(u) ==
   LET sent == SentUpTo(u, Len(u.clients))
       RLen(r) == u.replies[((r - 1) % Len(u.replies)) + 1]
-      hdr == IF u.mode = "socks5" THEN UdpHeader(1, TgtAddr, TgtPort, <<>>) ELSE <<>>
-  IN [mode |-> u.mode, tgt |-> [addr |-> TgtAddr, port |-> TgtPort], sent |-> sent, timeouts |-> <<>>,
-      trecv  |-> [r \in 1 .. Len(sent) |-> [r |-> r, src |-> <<"flow", sent[r].k>>, n |-> sent[r].n, dg |-> sent[r].dg]],
-      treply |-> [r \in 1 .. Len(sent) |-> [r |-> r, to |-> <<"flow", sent[r].k>>, n |-> RLen(r), dg |-> Dg("p", RLen(r), r, 0)]],
+      Hdr(r) == IF u.mode = "socks5" THEN UdpHeader(1, TgtAddr, TgtPorts[sent[r].tgt], <<>>) ELSE <<>>
+  IN [mode |-> u.mode, tgts |-> [t \in 1 .. 2 |-> [addr |-> TgtAddr, port |-> TgtPorts[t]]], sent |-> sent, timeouts |-> <<>>,
+      trecv  |-> [r \in 1 .. Len(sent) |-> [r |-> r, src |-> <<"flow", sent[r].k>>, n |-> sent[r].n, dg |-> sent[r].dg, tgt |-> sent[r].tgt]],
+      treply |-> [r \in 1 .. Len(sent) |-> [r |-> r, to |-> <<"flow", sent[r].k>>, n |-> RLen(r), dg |-> Dg("p", RLen(r), r, 0), tgt |-> sent[r].tgt]],
       crecv  |-> [r \in 1 .. Len(sent) |->
-                    [k |-> sent[r].k, from |-> sent[r].to, n |-> Len(hdr) + RLen(r), head |-> hdr,
-                     sfx |-> [i \in 1 .. Len(hdr) + 1 |-> IF i = Len(hdr) + 1 THEN Dg("p", RLen(r), r, 0) ELSE <<"inside the header", i>>]]]]
+                    [k |-> sent[r].k, from |-> sent[r].to, n |-> Len(Hdr(r)) + RLen(r), head |-> Hdr(r),
+                     sfx |-> [i \in 1 .. Len(Hdr(r)) + 1 |-> IF i = Len(Hdr(r)) + 1 THEN Dg("p", RLen(r), r, 0) ELSE <<"inside the header", i>>]]]]
 
 \* the first index whose reply went to a client other than that of reply 1 (0: there is none)
 OtherClient(h) == LET S == {i \in Idx(h.crecv) : h.crecv[i].k # h.crecv[1].k} IN IF S = {} THEN 0 ELSE CHOOSE i \in S : \A j \in S : i <= j
@@ -128,6 +191,11 @@ Broken(h) ==
                                   THEN [h EXCEPT !.crecv[1].head = <<0, 0, 0>> \o TgtAddr \o <<1>> \o PortBytes(TgtPort)]
                                   ELSE h
     [] Fault = "u_frag"        -> IF h.mode = "socks5" THEN [h EXCEPT !.crecv[1].head[3] = 1] ELSE h
+                                  \* every datagram of a flow goes where the FIRST datagram of the flow went
+    [] Fault = "u_wrongtarget" -> [h EXCEPT !.trecv = [r \in DOMAIN h.trecv |->
+                                     LET first == CHOOSE i \in 1 .. r : h.trecv[i].src = h.trecv[r].src /\
+                                                        \A j \in 1 .. r : h.trecv[j].src = h.trecv[r].src => i <= j
+                                     IN [h.trecv[r] EXCEPT !.tgt = h.trecv[first].tgt]]]
     [] OTHER -> h
 
 Hist == Broken(Ideal(uh))
@@ -144,18 +212,36 @@ Init ==
                /\ st = Step(Step(TcpInit, "c", [ev |-> "hs", ok |-> TRUE]), "t", [ev |-> "accepted"])
           \/ /\ prog = [c |-> ProgOf(a), t |-> Refuse]
              /\ st = Step(Step(TcpInit, "c", [ev |-> "hs", ok |-> TRUE]), "t", [ev |-> "refused"])
-     /\ pc = Both(1)
+     /\ pc = Both(1) /\ blk = Both(FALSE)
      /\ viol = {}
-     /\ Gen => PrintT(<<"SHAPE", ToJson([c |-> prog["c"], t |-> prog["t"]])>>)
+     /\ Gen => PrintT(<<"SHAPE", ToJson([c |-> prog["c"], t |-> prog["t"], rhold |-> "none"])>>)
+     \* back-pressure: endpoint h starts with its reader held, the other one streams
+  \/ /\ Proto = "tcp" /\ Fault \in {"none", "coupled"}
+     /\ uh = 0
+     /\ \E h \in Sides, sp \in StreamProgs, hp \in HeldProgs :
+          /\ prog = [x \in Sides |-> IF x = h THEN hp ELSE sp]
+          /\ st = Step(Step(TcpInitHeld({h}), "c", [ev |-> "hs", ok |-> TRUE]), "t", [ev |-> "accepted"])
+          /\ Gen => PrintT(<<"SHAPE", ToJson([c |-> prog["c"], t |-> prog["t"], rhold |-> h])>>)
+     /\ pc = Both(1) /\ blk = Both(FALSE)
+     /\ viol = {}
+     \* requests that must arrive while the connection stays open (no held reader)
+  \/ /\ Proto = "tcp" /\ Fault \in {"none", "coupled"}
+     /\ uh = 0
+     /\ \E a \in Sides, ap \in SyncProgs, bp \in PeerProgs :
+          /\ prog = [x \in Sides |-> IF x = a THEN ap ELSE bp]
+          /\ st = Step(Step(TcpInit, "c", [ev |-> "hs", ok |-> TRUE]), "t", [ev |-> "accepted"])
+          /\ Gen => PrintT(<<"SHAPE", ToJson([c |-> prog["c"], t |-> prog["t"], rhold |-> "none"])>>)
+     /\ pc = Both(1) /\ blk = Both(FALSE)
+     /\ viol = {}
   \/ /\ Proto = "udp"
      /\ uh \in UShapes
-     /\ prog = 0 /\ pc = 0 /\ st = 0
+     /\ prog = 0 /\ pc = 0 /\ st = 0 /\ blk = 0
      /\ viol = UViol
      /\ Gen => PrintT(<<"USHAPE", ToJson(uh)>>)
 
 Emit(x, e) == /\ viol' = viol \cup Failing(st, x, e)
               /\ st' = Step(st, x, e)
-Advance(x) == pc' = [pc EXCEPT ![x] = @ + 1]
+Advance(x) == pc' = [pc EXCEPT ![x] = @ + 1] /\ UNCHANGED blk
 Fin(y)  == st.hc[y] \/ st.closed[y] \/ st.refused
 Gone(y) == st.closed[y] \/ st.refused
 
@@ -173,6 +259,20 @@ Script(x) ==
         /\ \/ Fault = "nofin" /\ st.hc[y] /\ ~Gone(y)
            \/ Fault = "hang" /\ Gone(y)
         /\ Emit(x, [ev |-> "timeout", what |-> "eof", peer_fin |-> TRUE]) /\ Advance(x)
+        \* a big write: announced, then it completes once the pipe has room again (or nobody will ever read)
+     \/ /\ o.op = "wbig" /\ ~blk[x]
+        /\ Emit(x, [ev |-> "send", n |-> o.n]) /\ blk' = [blk EXCEPT ![x] = TRUE] /\ UNCHANGED pc
+     \/ /\ o.op = "wbig" /\ blk[x]
+        /\ st.sent[x] - st.rcvd[y] <= Cap \/ st.abort \/ Gone(y) \/ st.eof[y] \/ st.rst[y]
+        /\ blk' = [blk EXCEPT ![x] = FALSE] /\ pc' = [pc EXCEPT ![x] = @ + 1] /\ UNCHANGED <<st, viol>>
+     \/ o.op = "sleep" /\ Advance(x) /\ UNCHANGED <<st, viol>>
+     \/ o.op = "ron" /\ Emit(x, [ev |-> "ron"]) /\ Advance(x)
+        \* the peer has everything I sent
+     \/ /\ o.op = "sync" /\ (st.rcvd[y] = st.sent[x] \/ st.abort \/ Gone(y))
+        /\ Advance(x) /\ UNCHANGED <<st, viol>>
+        \* coupled directions: it never gets there while its own writer is stuck; the harness gives up
+     \/ /\ o.op = "sync" /\ Fault = "coupled" /\ st.rcvd[y] < st.sent[x] /\ st.reading[y]
+        /\ Emit(x, [ev |-> "timeout", what |-> "delivery", peer_reading |-> TRUE]) /\ Advance(x)
 
 \* what the network lets x observe
 Observe(x) ==
@@ -180,9 +280,12 @@ Observe(x) ==
       avail == st.sent[y] - st.rcvd[x]
   IN
   /\ ~st.closed[x] /\ ~st.eof[x] /\ ~st.rst[x]
+  /\ st.reading[x]
   /\ ~(Refusing /\ x = "t")
-  /\ UNCHANGED pc
+  /\ UNCHANGED <<pc, blk>>
   /\ \/ /\ avail > 0
+        \* coupled directions: nothing for x while x's own big write is stuck
+        /\ ~(Fault = "coupled" /\ blk[x] /\ st.sent[x] - st.rcvd[y] > Cap)
         /\ \E n \in {1, avail} : Emit(x, [ev |-> "recv", a |-> st.rcvd[x], b |-> st.rcvd[x] + n])
      \/ Fault = "gap" /\ avail >= 2 /\ Emit(x, [ev |-> "recv", a |-> st.rcvd[x] + 1, b |-> st.rcvd[x] + avail])
      \/ Fault = "dup" /\ st.rcvd[x] > 0 /\ Emit(x, [ev |-> "recv", a |-> st.rcvd[x] - 1, b |-> st.rcvd[x]])
@@ -210,7 +313,9 @@ Inv_Prefix    == "Prefix" \notin viol
 Inv_Complete  == "Complete" \notin viol \cup EndViol
 Inv_HalfClose == "HalfClose" \notin viol
 Inv_Closed    == "ClosedNotHanging" \notin viol
+Inv_Independent == "Independent" \notin viol
 Inv_Other     == Proto = "tcp" => viol \subseteq Monitors
+U_Target      == "udp_datagram_wrong_target" \notin viol
 U_Datagram    == viol \cap {"udp_datagram_modified", "udp_datagram_duplicated", "udp_datagram_lost"} = {}
 U_Header      == "socks5_udp_header" \notin viol
 U_Client      == "udp_reply_wrong_client" \notin viol
